@@ -467,6 +467,11 @@ def run(ctx):
         ctx.guard("round-count", "reference", lambda: check_round_loops(ctx, P6, "chacha::reference", [16, 12, 8, 7]))
         ctx.guard("hcore", "XChaCha/K6", lambda: check_xvariant(ctx, P6, "chacha20::XChaCha", "chacha::reference"))
     ctx.guard("hcore-words", "all", lambda: check_output_ad(ctx, P, P6))
+    # the counter a seek sets is only effective if the cached keystream block is invalidated with it (rule shared with C04)
+    from . import C04 as _C04
+    for T, incpat, has_seek in _C04.CIPHERS:
+        if has_seek:
+            ctx.guard("mustset", T + "::seek", lambda T=T: _C04.check_seek(ctx, P, T))
     # every piece of every engine's block function against the specification, as value graphs (cxsa/props/arx.py)
     from . import arx
     got = []
